@@ -33,4 +33,127 @@ theorem reprCmp_of_fits (B : Nat) (hB : 2 ≤ B) (digitsUb : Int → Nat)
   cases h
   exact ⟨fun _ => ha.bound hB, fun _ => hb.bound hB⟩
 
+
+-- ================================================================== producers return the canonical representation
+
+open Dashu.Model.Float in
+section
+theorem new_fcanon (B : Nat) (hB : 2 ≤ B) (s e : Int) : FCanon B (ofFloatRepr (Float.FRepr.new B s e)) := by
+  have hn := Float.FRepr.new_normalized B hB s e
+  unfold Float.Normalized at hn
+  unfold Float.FRepr.new at hn ⊢
+  by_cases hs : s = 0
+  · simp [hs, ofFloatRepr, FCanon]
+  · simp only [hs, if_false, ofFloatRepr, FCanon] at hn ⊢
+    have hmod : (Float.stripAux B (s.natAbs.log2 + 1) s e).1 % (B : Int) ≠ 0 := by
+      rcases hn with h | h
+      · exfalso
+        -- a stripped non-zero significand is non-zero: s = n * B^j
+        obtain ⟨j, hj⟩ := Float.stripAux_int B (s.natAbs.log2 + 1) s e
+        rw [h, Int.zero_mul] at hj; exact hs hj
+      · exact h
+    generalize (Float.stripAux B (s.natAbs.log2 + 1) s e).1 = n at *
+    refine ⟨fun h0 => by rw [h0] at hmod; simp at hmod, fun _ => ?_⟩
+    intro hz
+    apply hmod
+    have : (B : Int) ∣ n := by
+      rw [← Int.natAbs_dvd_natAbs]; simpa using Nat.dvd_of_mod_eq_zero hz
+    exact Int.emod_eq_zero_of_dvd this
+
+theorem reprRound_fcanon (B : Nat) (hB : 2 ≤ B) (m : Mode) (c : Coarse) (p : Nat) (r : Float.FRepr)
+    (hr : FCanon B (ofFloatRepr r)) : FCanon B (ofFloatRepr (reprRound B m c p r).1) := by
+  unfold reprRound
+  split
+  · exact hr
+  · simp only
+    split
+    · exact new_fcanon B hB _ _
+    · exact hr
+
+theorem ctxMul_fcanon (fixed : Bool) (B : Nat) (hB : 2 ≤ B) (m : Mode) (c : Coarse) (p : Nat) (a b : Float.FRepr) :
+    FCanon B (ofFloatRepr (ctxMul fixed B m c p a b).1) := by
+  unfold ctxMul
+  exact reprRound_fcanon B hB m c p _ (new_fcanon B hB _ _)
+
+theorem roundSum_stage (B : Nat) (m : Mode) (c : Coarse) (t : Int × Int × (Int × Nat)) :
+    ∃ s' e', (if t.2.2.1 = 0 then ((Float.FRepr.new B t.1 t.2.1, none) : Rounded Float.FRepr)
+      else (Float.FRepr.new B (t.1 + rInt (roundFract B m c t.1 t.2.2.1 t.2.2.2)) t.2.1,
+        some (roundFract B m c t.1 t.2.2.1 t.2.2.2))).1 = Float.FRepr.new B s' e' := by
+  split <;> exact ⟨_, _, rfl⟩
+
+theorem reprRoundSum_shape (B : Nat) (m : Mode) (c : Coarse) (p : Nat) (s e : Int) (low : Int × Nat)
+    (isSub : Bool) : ∃ s' e', (reprRoundSum B m c p s e low isSub).1 = Float.FRepr.new B s' e' := by
+  unfold reprRoundSum
+  by_cases hp : p = 0
+  · simp only [hp, if_true]; exact ⟨_, _, rfl⟩
+  · simp only [hp, if_false]
+    exact roundSum_stage B m c _
+
+theorem reprRoundSum_fcanon (B : Nat) (hB : 2 ≤ B) (m : Mode) (c : Coarse) (p : Nat) (s e : Int) (low : Int × Nat)
+    (isSub : Bool) : FCanon B (ofFloatRepr (reprRoundSum B m c p s e low isSub).1) := by
+  obtain ⟨s', e', h⟩ := reprRoundSum_shape B m c p s e low isSub
+  rw [h]; exact new_fcanon B hB _ _
+
+theorem fcanon_neg (B : Nat) (r : Float.FRepr) (h : FCanon B (ofFloatRepr r)) : FCanon B (ofFloatRepr r.neg) := by
+  obtain ⟨sg, ex⟩ := r
+  obtain ⟨h1, h2⟩ := h
+  constructor
+  · intro h0
+    have : sg = 0 := by
+      have h0' : -sg = 0 := h0
+      omega
+    exact h1 this
+  · intro hn
+    have hn' : sg ≠ 0 := by
+      intro h; apply hn; show -sg = 0; omega
+    show (-sg).natAbs % B ≠ 0
+    rw [Int.natAbs_neg]; exact h2 hn'
+
+theorem reprAddLargeSmall_shape (B : Nat) (m : Mode) (c : Coarse) (dub : Int → Nat) (p : Nat)
+    (lhs rhs : Float.FRepr) (rs : Int) :
+    ∃ s e l b, reprAddLargeSmall B m c dub p lhs rhs rs = reprRoundSum B m c p s e l b := by
+  unfold reprAddLargeSmall
+  simp only []
+  split_ifs <;> exact ⟨_, _, _, _, rfl⟩
+
+theorem reprAddLargeSmall_fcanon (B : Nat) (hB : 2 ≤ B) (m : Mode) (c : Coarse) (dub : Int → Nat) (p : Nat)
+    (lhs rhs : Float.FRepr) (rs : Int) :
+    FCanon B (ofFloatRepr (reprAddLargeSmall B m c dub p lhs rhs rs).1) := by
+  obtain ⟨s, e, l, b, h⟩ := reprAddLargeSmall_shape B m c dub p lhs rhs rs
+  rw [h]; exact reprRoundSum_fcanon B hB m c p _ _ _ _
+
+theorem ctxAddSub_fcanon (B : Nat) (hB : 2 ≤ B) (m : Mode) (c : Coarse) (dub : Int → Nat) (p : Nat)
+    (lhs rhs : Float.FRepr) (rs : Int) (hl : FCanon B (ofFloatRepr lhs)) (hr : FCanon B (ofFloatRepr rhs)) :
+    FCanon B (ofFloatRepr (ctxAddSub B m c dub p lhs rhs rs).1) := by
+  unfold ctxAddSub
+  by_cases h1 : lhs.isZero = true
+  · simp only [h1, if_true]
+    by_cases h2 : rs = 1
+    · simp only [h2, if_true]; exact reprRound_fcanon B hB m c p _ hr
+    · simp only [h2, if_false]; exact reprRound_fcanon B hB m c p _ (fcanon_neg B _ hr)
+  · simp only [h1, if_false]
+    by_cases h2 : rhs.isZero = true
+    · simp only [h2, if_true]; exact reprRound_fcanon B hB m c p _ hl
+    · simp only [h2, if_false]
+      by_cases h3 : lhs.exp = rhs.exp
+      · simp only [h3, if_true]; exact reprRound_fcanon B hB m c p _ (new_fcanon B hB _ _)
+      · simp only [h3, if_false]
+        by_cases h4 : lhs.exp > rhs.exp
+        · simp only [h4, if_true]; exact reprAddLargeSmall_fcanon B hB m c dub p _ _ _
+        · simp only [h4, if_false]; exact reprAddLargeSmall_fcanon B hB m c dub p _ _ _
+
+theorem reprDiv_fcanon (B : Nat) (hB : 2 ≤ B) (m : Mode) (p : Nat) (lhs rhs : Float.FRepr) (r : Rounded Float.FRepr)
+    (h : reprDiv B m p lhs rhs = .ok r) : FCanon B (ofFloatRepr r.1) := by
+  unfold reprDiv at h
+  split at h
+  · cases h
+  · split at h
+    · cases h
+    · simp only at h
+      split at h
+      · cases h; exact new_fcanon B hB _ _
+      · split at h <;> (cases h; exact new_fcanon B hB _ _)
+
+end
+
 end Dashu.Model
